@@ -226,6 +226,9 @@ class _exponential(_Potential_Function_Base):
     :param n: Potentials' B parameter
 
     :return: Derivative of `exponential` at `r`"""
+    if A*n == 0:
+      # A r^0 is a constant: its slope is zero everywhere, r = 0 included (where r**-1 cannot be evaluated)
+      return 0.0
     return A*n*r**(n-1)
 
   def deriv2(self, r, A,n):
@@ -236,6 +239,9 @@ class _exponential(_Potential_Function_Base):
     :param n: Potentials' B parameter
 
     :return: 2nd derivative of `exponential` at `r`"""
+    if A*n*(n-1) == 0:
+      # A r^0 and A r^1 have no curvature, r = 0 included
+      return 0.0
     return A*n*(n-1)*r**(n-2) 
 
 exponential = _exponential()
